@@ -128,6 +128,21 @@ func genBatch(r *rand.Rand, mode string) (BatchCfg, *BatchScript) {
 		c.N = 1 + r.Intn(2)
 		c.Sched, c.Via, c.StopMode = "wave", "builder", false
 		pFail = 0.5
+	case "stoprace": // one worker, very short items, item 3 fails: the stop decision must be taken before the worker moves on
+		c.C, c.Items = 1, 8
+		c.N, c.Fb, c.StopMode, c.Sched, c.Via, c.Shape = 1, false, true, "free0", "builder", "results"
+		pFail = 0
+	case "waitcancel": // an item waits between two attempts while another item's exec cancels the context
+		c.C, c.Items = 2, 2
+		c.N, c.W, c.Fb, c.StopMode, c.Sched, c.Via, c.Shape = 2, 40, false, false, "waitcancel", "builder", "results"
+		c.Cancel, c.CtxKind = true, []string{"cancel", "cause"}[r.Intn(2)]
+		pFail = 0
+	case "deadlinewait": // a real deadline that expires while the first item waits (one second) for its second attempt
+		c.C = []int{0, 2}[r.Intn(2)]
+		c.Items = 3
+		c.N, c.W, c.Fb, c.StopMode, c.Sched, c.Via, c.Shape = 2, 1000, false, r.Intn(2) == 0, "free0", "builder", "results"
+		c.Cancel, c.CtxKind = true, "timeout"
+		pFail = 0
 	case "onestop": // one worker (or none), stop mode, exactly one item fails for good: nothing positioned behind it may run
 		c.C = r.Intn(2)
 		c.Items = 4 + r.Intn(13)
@@ -172,8 +187,9 @@ func genBatch(r *rand.Rand, mode string) (BatchCfg, *BatchScript) {
 	if r.Intn(25) == 0 {
 		s.Prep = "err"
 	}
-	if r.Intn(25) == 0 {
+	if r.Intn(25) == 0 || ((mode == "empty" || mode == "single") && r.Intn(5) == 0) {
 		s.Post = Outcome{Out: "err"}
+		c.PostBE = r.Intn(2) == 0
 	}
 	for i := 1; i <= c.Items; i++ {
 		is := &itemScript{}
@@ -197,11 +213,24 @@ func genBatch(r *rand.Rand, mode string) (BatchCfg, *BatchScript) {
 	if mode == "bigstop" {
 		s.Items[1].Execs[0].Out = "err"
 	}
+	if mode == "stoprace" {
+		s.Items[3].Execs[0].Out = "err"
+	}
+	if mode == "deadlinewait" {
+		s.Items[1].Execs[0].Out = "err"
+	}
+	if mode == "waitcancel" {
+		s.Items[1].Execs[0].Out = "err"   // item 1 fails at once and waits 40 ms for its second attempt
+		s.Items[2].Execs[0].Cancel = true // item 2 cancels 10 ms into its exec, then returns
+	}
 	if mode == "onestop" {
 		s.Items[1+r.Intn(c.Items-1)].Execs[0].Out = "err"
 	}
 	if (mode == "continue" || mode == "stop" || mode == "rebudget") && c.Shape == "results" && c.WarmN == 0 && r.Intn(3) == 0 {
 		c.PrepN = true
+	}
+	if (mode == "continue" || mode == "barrier") && c.Shape == "results" && c.WarmC == 0 && r.Intn(3) == 0 {
+		c.PrepC = true
 	}
 	if mode == "rebudget" && r.Intn(2) == 0 {
 		c.WarmN, c.PrepN = 0, c.Shape == "results"
@@ -275,6 +304,9 @@ func init() {
 					continue
 				}
 				base := parseBatchCfg(asMap(line["cfg"]))
+				if opts["only"] == "continue" && base.StopMode {
+					continue // the property under check speaks about continue-on-error batches only
+				}
 				exp := asList(line["h"])
 				sc := batchScriptFromHistory(exp)
 				// two concrete variants per behaviour: exec style, prep payload shape, dispatch path
@@ -312,6 +344,24 @@ func init() {
 				n = 6
 				if bc := opts["bigcount"]; bc != "" {
 					fmt.Sscanf(bc, "%d", &n)
+				}
+			}
+			if mode == "stoprace" { // tiny scenarios, a window of nanoseconds: many rounds
+				n = 600
+				if count > 500 {
+					n = 6000
+				}
+			}
+			if mode == "deadlinewait" { // 150 ms each
+				n = 4
+				if count > 500 {
+					n = 12
+				}
+			}
+			if mode == "waitcancel" { // 50 ms each
+				n = 6
+				if count > 500 {
+					n = 30
 				}
 			}
 			if mode == "storm" { // cheap, and the race windows it aims at are nanoseconds wide: many rounds
